@@ -32,6 +32,8 @@ def observe(impl, L, queries):
         return ['error', 4], None
     except RecursionError:
         return ['error', 5], None
+    except Exception as e:           # anything else is not an error report of the language graph
+        return ['error', 9], None
     names = [a.name for a in lg.assets]
     assets = []
     for a in lg.assets:
@@ -77,8 +79,9 @@ def property_violations(L, obs, lg, queries, wf):
             out.append(f'super link of {a[0]} does not mirror extends')
         if a[2] != [x['name'] for x in L['assets'] if x['superAsset'] == a[0]]:
             out.append(f'sub links of {a[0]} do not mirror extends')
-        exp = sorted({akey(c['name'], c['leftField'], c['rightField']) for c in L['associations']
-                      if st.is_sub(a[0], c['leftAsset']) or st.is_sub(a[0], c['rightAsset'])}, key=C.skey)
+        distinct = {(c['name'], c['leftField'], c['rightField'], c['leftAsset'], c['rightAsset']) for c in L['associations']
+                    if st.is_sub(a[0], c['leftAsset']) or st.is_sub(a[0], c['rightAsset'])}
+        exp = sorted((akey(n, lf, rf) for n, lf, rf, la, ra in distinct), key=C.skey)
         if a[3] != exp:
             out.append(f'{a[0]} does not list exactly the associations it or an ancestor takes part in')
     for i, t in enumerate(names):
@@ -105,14 +108,33 @@ def property_violations(L, obs, lg, queries, wf):
     return out
 
 
-def edge_prediction_violations(impl, L, lg, rng):
+def edge_prediction_violations(impl, L, lg, rng, dense=False):
     """For a random valid model: every attack-graph edge X:s -> Y:t is predicted by a language-graph link from
     step s of X's type to a step t owned by Y's type or one of its ancestors."""
     from maltoolbox.language import LanguageClassesFactory
     from maltoolbox.attackgraph import AttackGraph
     st = LG.Static(L)
     lcf = LanguageClassesFactory(lg)
-    m = MG.gen_model(impl, rng, L, lg, lcf)
+    if dense:
+        # one asset of every type, every association between every admissible pair
+        from maltoolbox.model import Model
+        m = Model('dense', lcf)
+        for a in L['assets']:
+            m.add_asset(getattr(lcf.ns, a['name'])(name=a['name'].lower()))
+        for assoc in lg.associations:
+            cname, cls = MG.assoc_class(lcf, assoc)
+            for x in m.assets:
+                for y in m.assets:
+                    if st.is_sub(str(x.type), assoc.left_field.asset.name) and st.is_sub(str(y.type), assoc.right_field.asset.name):
+                        try:
+                            o = cls()
+                            setattr(o, assoc.left_field.fieldname, [x])
+                            setattr(o, assoc.right_field.fieldname, [y])
+                            m.add_association(o)
+                        except Exception:
+                            pass
+    else:
+        m = MG.gen_model(impl, rng, L, lg, lcf)
     try:
         g = AttackGraph(lg, m)
     except Exception:
@@ -169,6 +191,34 @@ def ill_formed(rng, L):
     return L
 
 
+def union_family():
+    """Unions of unrelated types whose closest common super asset is one, two or three levels above either operand,
+    in both operand orders, with the target step declared on the root or on an intermediate asset."""
+    F, S, CO, U = LG.F, LG.S, LG.CO, LG.U
+    out = []
+    for depth_l in (1, 2, 3):
+        for depth_r in (1, 2, 3):
+            for step_on in ('Root', 'L1', 'R1'):
+                assets = [LG.asset('Root', None, [LG.step('hit', 'or')] if step_on == 'Root' else [LG.step('other', 'or')])]
+                for side, depth in (('L', depth_l), ('R', depth_r)):
+                    prev = 'Root'
+                    for k in range(1, depth + 1):
+                        steps = [LG.step('hit', 'or')] if step_on == f'{side}{k}' else []
+                        assets.append(LG.asset(f'{side}{k}', prev, steps))
+                        prev = f'{side}{k}'
+                if step_on != 'Root' and not any(a['name'] == step_on for a in assets):
+                    continue
+                lt, rt = f'L{depth_l}', f'R{depth_r}'
+                if step_on in ('L1', 'R1'):
+                    continue_ok = False        # a step that only one branch has cannot be reached through the union's type
+                    continue
+                for order in (0, 1):
+                    e = U(F('ls'), F('rs')) if order == 0 else U(F('rs'), F('ls'))
+                    src = LG.asset('Src', None, [LG.step('go', 'or', reaches=[CO(e, S('hit'))])])
+                    out.append(LG.lang(assets + [src], [LG.assoc('Pl', 'Src', 'srcl', lt, 'ls'), LG.assoc('Pr', 'Src', 'srcr', rt, 'rs')]))
+    return out
+
+
 def check(pid: str, tier: str, seed: int):
     t0 = time.time()
     rng = random.Random(seed * 32452843 + 15)
@@ -178,8 +228,13 @@ def check(pid: str, tier: str, seed: int):
         impl = C.import_impl()
         gen = LG.LangGen(rng, dup_assoc_names=0.25, reuse_fields=0.35)
         n = 260 if tier == 'quick' else 4000
-        for i in range(n):
-            L = gen.gen()
+        handmade = union_family()
+        for i in range(n + len(handmade)):
+            L = gen.gen() if i < n else handmade[i - n]
+            if i % 2 == 1:
+                # any declaration order: sub-assets before their super assets
+                L = copy.deepcopy(L)
+                rng.shuffle(L['assets'])
             variants = [(L, True)]
             if i % 3 == 0:
                 bad = ill_formed(rng, L)
@@ -202,8 +257,8 @@ def check(pid: str, tier: str, seed: int):
                 snap = copy.deepcopy(LL)
                 obs, lg = observe(impl, LL, queries)
                 pv = property_violations(snap, obs, lg, queries, wf)
-                if wf and lg is not None and i % 2 == 0:
-                    ev, k = edge_prediction_violations(impl, snap, lg, rng)
+                if wf and lg is not None and (i % 2 == 0 or i >= n):
+                    ev, k = edge_prediction_violations(impl, snap, lg, rng, dense=(i >= n))
                     pv += ev
                     n_edges += k
                 qs = C.clist([f'({C.cstr(a)}, {C.cstr(b)}, {C.cstr(c)}, {C.cstr(d)})' for a, b, c, d in queries])
